@@ -200,6 +200,9 @@ func (c18) Gen(seed uint64, run int, tier string) *core.Case {
 			op.Up = r.IntN(2)
 		case x < 76:
 			op.Kind = "mplistuploads"
+			if r.IntN(2) == 0 {
+				op.Q = []KV{{K: "max-uploads", V: fmt.Sprint(1 + r.IntN(2))}} // a page that may be truncated
+			}
 		case x < 81:
 			op.Kind = "mpcomplete"
 			op.Up = r.IntN(2)
@@ -370,7 +373,7 @@ func (s *c18Side) build(op c18Op, seed uint64) *s3c.Req {
 	case "mplistparts":
 		return s3c.ListParts(b, op.Key, upid())
 	case "mplistuploads":
-		return s3c.ListUploads(b)
+		return s3c.ListUploads(b, op.Q...)
 	case "mpcomplete":
 		var parts []s3c.CPart
 		pm := s.parts[upid()]
@@ -645,6 +648,26 @@ func (c18) Exec(c *core.Case) (out *core.Outcome) {
 			case op.Kind == "get":
 				if !bytes.Equal(rd.Resp.Body, rp.Resp.Body) {
 					viol("body-bytes", "object bytes differ (%d vs %d bytes; %s)", len(rd.Resp.Body), len(rp.Resp.Body), firstDiff(rd.Resp.Body, rp.Resp.Body))
+					bad = true
+				}
+			case op.Kind == "mplistuploads" && len(op.Q) > 0:
+				// a page of a listing that may be truncated: which upload of a key comes first depends on the
+				// (random) upload ids, so the pages are compared by their shape and by their own consistency:
+				// same truncation flag, same number of uploads, same next key, and the next-upload-id marker
+				// is the id of the page's last upload on both sides or on neither
+				var la, lb s3c.ListUploadsResult
+				xml.Unmarshal(rd.Resp.Body, &la)
+				xml.Unmarshal(rp.Resp.Body, &lb)
+				shape := func(l s3c.ListUploadsResult) string {
+					last, lastKey := "", ""
+					if n := len(l.Uploads); n > 0 {
+						last, lastKey = l.Uploads[n-1].UploadId, l.Uploads[n-1].Key
+					}
+					return fmt.Sprintf("truncated=%v uploads=%d max=%d next-key-is-last=%v next-id-is-last=%v next-id-empty=%v", l.IsTruncated, len(l.Uploads), l.MaxUploads,
+						l.NextKeyMarker == lastKey, l.NextUploadIdMarker == last, l.NextUploadIdMarker == "")
+				}
+				if sa, sb := shape(la), shape(lb); sa != sb {
+					viol("xml:ListMultipartUploadsResult/page", "pages differ: direct %s, proxied %s", sa, sb)
 					bad = true
 				}
 			case isXML:
